@@ -618,6 +618,7 @@ pub fn run_async_case(case: &ACase) -> Outcome {
         }
     }
     counters.add("probe.polls_pending_without_self_wake", contended);
+    // (histories on which the checker's search budget ran out are counted process-wide in lin::UNDECIDED)
     counters.add("ops.history_events", sh.hist.borrow().len() as u64);
     fp.add(sh.hist.borrow().len() as u64);
     let nontrivial = contended >= 1 && sh.hist.borrow().len() >= 4;
